@@ -346,10 +346,28 @@ def reference_solution(eos, ic, g):
     return None
 
 
-def newton_reasonable():
+# inputs found by the thorough search, replayed first on every run (each is a guess within +-30 % of the physical state)
+NEWTON_WITNESSES = {
+    'nan': [dict(eos='Ideal', consts={'gamma': 1.4}, cls='Pressure', tol=1e-10,
+                 ic={'density': 1.9780886910924178, 'velocity': -1.2531025886844354, 'pressure': 0.0, 'symmetry': 2},
+                 pert=[-0.26033326530704287, -0.28904172618462426, 0.06763711759736701])],
+    'speed': [dict(eos='NobleAbel', consts={'gamma': 1.168185573201259, 'b': 0.038481883456450296}, cls='Pressure', tol=1e-06,
+                   ic={'density': 1.6177145553346586, 'velocity': -1.5443939052706768, 'pressure': 0.0, 'symmetry': 2},
+                   pert=[-0.174860956400726, 0.22872917716829183, -0.17866524252137758])],
+}
+
+
+def newton_reasonable(mode='jump'):
     """Newton from a guess within +-30 % of the physical solution: whenever `solve` returns, the returned state
-    satisfies the three jump conditions and D > 0"""
+    satisfies the three jump conditions to tolerance (mode 'jump': what `newton_converged` and the
+    `*_jump_within_tolerance` theorems give over the reals) / has a positive shock speed (mode 'speed': NOT implied by
+    the code -- finding) / is finite (mode 'nan': the exit test `not (residual > tol or error > tol)` is passed by
+    NaN -- finding)"""
+    first = list(NEWTON_WITNESSES.get(mode, []))
+
     def gen(rng):
+        if first:
+            return first.pop(0)          # recorded inputs first, then the random search
         short = rng.choice(['Ideal', 'Ideal', 'Stiff', 'NobleAbel', 'CS'])
         c = sample_consts(short, rng)
         if short == 'CS':
@@ -388,15 +406,48 @@ def newton_reasonable():
             rho, P, D = x
             e = eos.e(rho, P)
         site = 'newton(%s):' % TE.RESIDUALS[c['cls']][0]
-        if not all(map(math.isfinite, x)):
-            return dict(site=site + 'non-finite', detail='returned %r' % (x,))
-        if not D > 0:
-            return dict(site=site + 'shock_speed', detail='guess %r converged to %r (D <= 0)' % (guess, x))
+        if mode == 'nan':
+            if not all(map(math.isfinite, x)):
+                return dict(site='newton:reasonable_guess:non_finite',
+                            detail='%s with %s%r, %r, tolerance %r: guess %r (within 30%% of the physical state %r): solve() returned %r '
+                                   'after %d iterations as a converged solution'
+                                   % (TE.RESIDUALS[c['cls']][0], TE.EOS_CLASSES[c['eos']][0], c['consts'], ic, c['tol'], guess, ref, x,
+                                      out['number_of_iterations']))
+            return None
+        if mode == 'speed':
+            if all(map(math.isfinite, x)) and not D > 0:
+                return dict(site='newton:reasonable_guess:shock_speed',
+                            detail='%s with %s%r, %r: guess %r (within 30%% of the physical state %r) converged to %r (D <= 0)'
+                                   % (TE.RESIDUALS[c['cls']][0], TE.EOS_CLASSES[c['eos']][0], c['consts'], ic, guess, ref, x))
+            return None
+        if not all(map(math.isfinite, x)) or not D > 0:
+            return None          # NaN "solutions" and the spurious root are reported by the two finding obligations
         dfs = jump_defects(ic, eos.e(ic['density'], ic['pressure']), rho, P, e, D)
         if max(dfs) > 1e3 * c['tol']:
             return dict(site=site + 'jump', detail='returned %r, relative jump defects %r' % (x, dfs))
         return None
-    return O.make(gen, check, 'c16.newton.reasonable')
+    return O.make(gen, check, 'c16.newton.reasonable.' + mode)
+
+
+def combine(*oracles):
+    """one oracle out of several (budget shared equally); a replay goes to the oracle that produced the failure"""
+    def run(rng, budget, deep, replay=None):
+        if replay is not None:
+            nm = replay.get('oracle')
+            for o in oracles:
+                if o.__name__ == nm:
+                    return o(rng, budget, deep, replay=replay)
+            return oracles[0](rng, budget, deep, replay=replay)
+        tot = dict(evaluations=0, failures=[], samples=[], worst=None, distinct_nontrivial=0)
+        for o in oracles:
+            r = o(rng, budget / len(oracles), deep)
+            tot['evaluations'] += r['evaluations']
+            tot['distinct_nontrivial'] += r.get('distinct_nontrivial', 0)
+            tot['failures'] += r['failures']
+            tot['samples'] += r['samples'][:1]
+        return tot
+    run.__name__ = '+'.join(o.__name__ for o in oracles)
+    return run
 
 
 def newton_default_guess():
@@ -898,6 +949,29 @@ def bb_tie(model, short):
     return run_twins([Twin(model, gen, lambda d: d['want'], hide=('want',))])
 
 
+class _Recording(object):
+    """the real residual object, recording how close to zero density / to non-finite values the iteration came"""
+
+    def __init__(self, res):
+        self.res, self.min_rho, self.nonfinite = res, float('inf'), False
+
+    def _see(self, x):
+        try:
+            v = [float(a) for a in x]
+            self.min_rho = min(self.min_rho, abs(v[0]))
+            self.nonfinite = self.nonfinite or not all(map(math.isfinite, v))
+        except Exception:
+            pass
+
+    def F(self, x, *a, **k):
+        self._see(x)
+        return self.res.F(x, *a, **k)
+
+    def F_prime_inv(self, x, *a, **k):
+        self._see(x)
+        return self.res.F_prime_inv(x, *a, **k)
+
+
 def newton_tie(rng, deep):
     """hand model EPV.Model.Newton (ideal-gas pressure residual) vs newton_solver.solve on the real classes:
     outcome (converged / IterationError / exception class), iteration count, solution"""
@@ -928,14 +1002,23 @@ def newton_tie(rng, deep):
     st = dict(evaluations=0, distinct_nontrivial=0, mismatches=[], samples=[], outcome_hist={})
     for c, out in zip(cases, outs):
         st['evaluations'] += 1
-        res = R.pressure_noh_residual(dict(c['ic']), L.ideal_gas_eos(c['gamma']))
+        res = _Recording(R.pressure_noh_residual(dict(c['ic']), L.ideal_gas_eos(c['gamma'])))
         tag, rv = run_newton(res, c['guess'], c['tol'], c['maxit'])
         ws = out.split()
         mtag = ws[0] if ws[0] != 'converged' else 'converged'
         st['outcome_hist'][tag] = st['outcome_hist'].get(tag, 0) + 1
         bad = None
+        # next to the spurious root (rho -> 0, D -> u0) the density iterates cancel / underflow: whether an iterate is
+        # exactly 0.0 (ZeroDensityError), NaN, or how many more updates are made then depends on the last bit of the
+        # 3x3 inverse (numpy LU vs adjugate).  Such trajectories are compared by outcome class only, and loosely.
+        chaotic = res.min_rho < 1e-8 * c['ic']['density'] or res.nonfinite
         if tag != mtag:
-            bad = 'model %s, code %s' % (out[:60], tag)
+            if not (chaotic and {tag, mtag} <= {'converged', 'raise:ZeroDensityError', 'raise:IterationError', 'raise:ZeroDeterminantError'}):
+                bad = 'model %s, code %s' % (out[:60], tag)
+        elif tag == 'converged' and chaotic:
+            mD, rD = lean_io.unbits(ws[4]), float(rv['solution'][2])
+            if math.isfinite(mD) and math.isfinite(rD) and not _close(mD, rD, 1e-4):
+                bad = 'shock speed: code %r model %r' % (rD, mD)
         elif tag == 'converged':
             it = int(ws[1])
             mx = [lean_io.unbits(w) for w in ws[2:5]]
